@@ -49,6 +49,11 @@ func genC16(t *simrt.Tape, tier string) Scenario {
 		maxLen = 16
 	}
 	n := t.Choose(maxLen + 1)
+	large := t.Bool(1, 8)
+	if large {
+		// long list, small pool, cheap f: one worker handles many items back to back
+		n = 17 + t.Choose(40)
+	}
 	for i := 0; i < n; i++ {
 		sc.List = append(sc.List, 10+i*7)
 	}
@@ -63,6 +68,12 @@ func genC16(t *simrt.Tape, tier string) Scenario {
 		sc.Random = t.Bool(1, 2)
 	}
 	mode := t.Choose(4) // 0 equal, 1 decreasing (later finish first), 2 random, 3 zero
+	if large {
+		mode = 3
+		if sc.HasOpt {
+			sc.FixedPool = []int{3, 4, 6, 12}[t.Choose(4)]
+		}
+	}
 	for i := 0; i < n; i++ {
 		var d time.Duration
 		switch mode {
